@@ -290,6 +290,10 @@ class Exec:
         self.extra_lemmas = []
         self.uf_defs = []
         self.products = []
+        self.havoc = False
+        self.assert_hooks = []
+        self.havoced = {}
+        self.cuts = 0
 
     def get_fn(self, m):
         f = self.cache.get(id(m))
@@ -1004,6 +1008,9 @@ class Exec:
 
     def call(self, st, callee, argvals, path, depth):
         """returns list of ('ret', value, path, mem)"""
+        for pat, hook in self.assert_hooks:
+            if pat.search(callee):
+                hook(self, st, argvals, path, callee)       # may record panic edges (debug_assert! bodies are not in the MIR)
         if re.match(r'^<\{closure@[^}]*\} as Fn(Mut|Once)?<\(.*\)>>::call(_mut|_once)?$', callee):
             tup = argvals[1]
             targs = list(tup.fields) if isinstance(tup, Struct) else [tup]
@@ -1019,6 +1026,11 @@ class Exec:
                 return out
         m = self.resolve(callee, argvals, st)
         if m is None:
+            if self.havoc:
+                # bug-hunting mode for arithmetic prologues: an unknown callee returns an opaque value; a path is cut
+                # as soon as an opaque value reaches a branch or an assert (recorded in self.cuts)
+                self.havoced[callee[:120]] = self.havoced.get(callee[:120], 0) + 1
+                return [('ret', Opaque('havoc ' + callee[:60]), path, st['mem'])]
             raise Unsupported(f'no body/contract for {callee}')
         tyargs = []
         mt = re.search(r'::<([^()]*)>$', callee.strip())
@@ -1069,9 +1081,16 @@ class Exec:
                 raise Unsupported(f'step bound exceeded in {fn.name} (loop?)')
             stmts = fn.blocks[bb]
             term = stmts[-1]
-            for s_ in stmts[:-1]:
-                self.stmt(st, s_, fn)
-            for item in self.terminator(st, term, fn, path, depth):
+            try:
+                for s_ in stmts[:-1]:
+                    self.stmt(st, s_, fn)
+                items = self.terminator(st, term, fn, path, depth)
+            except Unsupported:
+                if self.havoc:
+                    self.cuts += 1
+                    continue
+                raise
+            for item in items:
                 if item[0] == 'goto':
                     work.append((item[1], item[2], item[3], steps + 1))
                 elif item[0] == 'return':
@@ -1120,6 +1139,9 @@ class Exec:
             if isinstance(v, tuple) and v[0] == 'ordering':
                 v = v[1]
             if isinstance(v, Opaque):
+                if self.havoc:
+                    self.cuts += 1
+                    return []
                 raise Unsupported(f'switch on {v} in {fn.name[-70:]}')
             out = []
             others = []
@@ -1171,6 +1193,9 @@ class Exec:
         if mm:
             c = self.operand(st, mm.group(2), fn)
             if isinstance(c, Opaque):
+                if self.havoc:
+                    self.cuts += 1
+                    return []
                 raise Unsupported(f'assert on opaque in {fn.name}')
             ok = z3.Not(c) if mm.group(1) == '!' else c
             bad = path.add(z3.Not(ok))
